@@ -439,3 +439,15 @@ def C17(ctx):
 
 
 PROPS["C17"] = C17
+
+
+def EXT(ctx):
+    """Not one of the twenty properties and not registered in MANIFEST.json: behaviour the
+    specification covers beyond them (error variants and Display texts, Messages.tla)."""
+    ctx.rule = ("error variant and Display text of every rejecting entry point (Pattern, Dewey, PkgPath, Depend, Summary, "
+                "PlistEntry, Digest) on random rejected inputs, validated against Messages.tla")
+    ctx.record_validate("errmsg", q(ctx, 10000, 100000), "Tr_Messages", "Tr_Messages.cfg")
+
+
+PROPS["EXT"] = EXT
+TR_FOR_OP["errmsg"] = ("Tr_Messages", {})
